@@ -19,8 +19,11 @@ EVS = ["alpha", "beta", "gamma", "delta"]
 
 def scenario(rng):
     coro = rng.choice([0.0, 0.0, 0.0, 0.5, 1.0])
+    # a third of the machines carry guards (and some validators): a guard that sends an event and then refuses its own
+    # transition leaves an IGNORED first event (allow=True) with something queued behind it
+    guarded = rng.random() < 0.35
     scn = gen.rand_engine_scenario(
-        rng, nested=1.0, fail=0.0, dense=rng.choice([0.5, 0.9]), guards=False, validators=False,
+        rng, nested=1.0, fail=0.0, dense=rng.choice([0.5, 0.9]), guards=guarded, validators=guarded and rng.random() < 0.4,
         coro=coro, yields=1, nsends=rng.randint(1, 5), unknown=(), events=EVS, evcb_p=rng.choice([0.0, 0.4]),
         provs=rng.choice([["sm"], ["sm", "model"], ["sm", "l1"]]), allow=True)
     d = scn["classes"][0]
